@@ -42,6 +42,13 @@ class C07(XsProp):
             if signed and exp >= 1 << (w - 1):
                 exp -= 1 << w
             return dict(pack=pack, read=read, width=w, expect=('I', exp))
+        if k < 0.7:
+            # a packed record as a raw field of the enclosing record: read back as a view, opened, parsed to its end, closed
+            wa, wb = rng.choice([3, 8, 12, 16, 33]), rng.choice([1, 5, 8, 24])
+            a_, b_ = rng.getrandbits(wa), rng.getrandbits(wb)
+            pack = '[ %d %d uint! %d %d uint! ] >bitstr' % (a_, wa, b_, wb)
+            read = '%d bits open-bitstr [ %d uint %d uint remain ] close-bitstr' % (wa + wb, wa, wb)
+            return dict(pack=pack, read=read, width=wa + wb, expect=('V', [('I', a_), ('I', b_), ('I', 0)]))
         if k < 0.75:
             sfx = rng.choice(['', 'le', 'be'])
             r = real_lit(rng)
